@@ -52,7 +52,7 @@ WEIGHTS = {
     "C08": [("add", 4), ("compactall", 5), ("compactrange", 2), ("clean", 2), ("addition", 1)],
     "C10": [("add", 4), ("compactall", 2), ("compactrange", 4), ("reload", 4), ("read", 1), ("closeopen", 1)],
     "C16": [("add", 4), ("empty", 2), ("addition", 1), ("compactall", 3), ("compactrange", 2), ("clean", 3), ("closeopen", 2), ("autocompact", 1)],
-    "C05": [("add", 4), ("compactall", 2), ("compactrange", 5), ("closeopen", 2), ("clean", 2), ("reload", 1)],
+    "C05": [("add", 4), ("addition", 1), ("overlap", 2), ("compactall", 2), ("compactrange", 5), ("closeopen", 2), ("clean", 2), ("reload", 1)],
 }
 
 
